@@ -11,6 +11,7 @@ import (
 	"context"
 	"fmt"
 	"reflect"
+	"sync"
 	"time"
 
 	"github.com/cloudwego/eino/compose"
@@ -159,46 +160,157 @@ type c12BBCase struct {
 	Seed    uint64 `json:"seed"`
 	NilPtr  int    `json:"nilPtr"`
 	Budget  int    `json:"budget"`
+	// generator knobs of c12Gen (0 = as before)
+	Share    int `json:"share,omitempty"`
+	UnregAny int `json:"unregAny,omitempty"`
+	// Alias: the pending input IS the state (one pointer in checkpoint.State and checkpoint.Inputs)
+	Alias bool `json:"alias,omitempty"`
+	// Fan >= 2: node "1" has Fan successors, all interrupted: the one pointer it emitted is the
+	// pending input of each of them. AllPred: trigger mode AllPredecessor instead of AnyPredecessor.
+	Fan     int  `json:"fan,omitempty"`
+	AllPred bool `json:"allPred,omitempty"`
 }
 
-var c12BBTypes = []string{"c12Nest", "c12Any", "c12Node", "c12PC", "c12Mp", "c12P3"}
+var c12BBTypes = []string{"c12Nest", "c12Any", "c12Node", "c12PC", "c12Mp", "c12P3", "c12Hist", "c12MKs", "c12MKp", "c12UStr", "c12Leaf"}
 
-func c12BBGen[S any](c *c12BBCase) (*S, *S, bool) {
-	g := &c12Gen{r: vh.NewRand(c.Seed), nilPtr: c.NilPtr, nilCont: 0, budget: c.Budget}
+// c12BBGen: state and pending input. loud = the values hold an unregistered type: the only
+// acceptable outcomes are a refused checkpoint or a faithful restore.
+func c12BBGen[S any](c *c12BBCase) (state, pending *S, loud, ok bool) {
+	g := &c12Gen{r: vh.NewRand(c.Seed), nilPtr: c.NilPtr, nilCont: 0, budget: c.Budget, share: c.Share, unregAny: c.UnregAny}
 	a := g.gen(c12T[S](), 0)
 	g.budget = c.Budget
-	b := g.gen(c12T[S](), 0)
-	// only values the white-box round trip handles (anything else is reported there)
-	if c12CheckValue(a) != "" || c12CheckValue(b) != "" {
-		return nil, nil, false
-	}
+	b := g.gen(c12T[S](), 0) // same generator: with Share > 0 the pending input may point into the state
 	var st c12Stats
 	c12NewCtx().val(a, &st, 0, 0)
 	c12NewCtx().val(b, &st, 0, 0)
-	if !c12InUniverse(&st) || st.nilPtrToContainer > 0 || st.nestedContainer > 0 {
-		return nil, nil, false
+	if st.unenc > 0 || st.badUTF8 || st.nilPtrToContainer > 0 || st.nestedContainer > 0 {
+		return nil, nil, false, false
+	}
+	loud = !c12InUniverse(&st)
+	// inside the universe: only values the white-box round trip handles (anything else is reported there)
+	if !loud && (c12CheckValue(a) != "" || c12CheckValue(b) != "") {
+		return nil, nil, false, false
 	}
 	pa, pb := reflect.New(a.Type()), reflect.New(b.Type())
 	pa.Elem().Set(a)
 	pb.Elem().Set(b)
-	return pa.Interface().(*S), pb.Interface().(*S), true
+	state, pending = pa.Interface().(*S), pb.Interface().(*S)
+	if c.Alias {
+		pending = state
+	}
+	return state, pending, loud, true
+}
+
+// c12BBFan: START -> "1" -> {"s0", "s1", …} -> END, interrupted before every successor.
+func c12BBFan[S any](state, pending *S, width int, allPred bool) (class string, gotState *S, gotInputs []*S) {
+	store := &c12MemStore{m: map[string][]byte{}}
+	calls := 0
+	var mu sync.Mutex
+	gotInputs = make([]*S, width)
+	g := compose.NewGraph[string, map[string]any](compose.WithGenLocalState(func(ctx context.Context) *S {
+		calls++
+		if calls == 1 {
+			return state
+		}
+		return new(S)
+	}))
+	g.AddLambdaNode("1", compose.InvokableLambda(func(ctx context.Context, in string) (*S, error) { return pending, nil }))
+	g.AddEdge(compose.START, "1")
+	var names []string
+	for i := 0; i < width; i++ {
+		i, name := i, fmt.Sprintf("s%d", i)
+		names = append(names, name)
+		opts := []compose.GraphAddNodeOpt{compose.WithOutputKey(name)}
+		if i == 0 {
+			opts = append(opts, compose.WithStatePreHandler(func(ctx context.Context, in *S, st *S) (*S, error) {
+				mu.Lock()
+				gotState = st
+				mu.Unlock()
+				return in, nil
+			}))
+		}
+		g.AddLambdaNode(name, compose.InvokableLambda(func(ctx context.Context, in *S) (string, error) {
+			mu.Lock()
+			gotInputs[i] = in
+			mu.Unlock()
+			return name, nil
+		}), opts...)
+		g.AddEdge("1", name)
+		g.AddEdge(name, compose.END)
+	}
+	mode := compose.AnyPredecessor
+	if allPred {
+		mode = compose.AllPredecessor
+	}
+	ctx := context.Background()
+	r, err := g.Compile(ctx, compose.WithNodeTriggerMode(mode), compose.WithCheckPointStore(store), compose.WithInterruptBeforeNodes(names))
+	if err != nil {
+		return "compile-error:" + err.Error(), nil, nil
+	}
+	var out map[string]any
+	var e1, e2 error
+	if cls := c12Guard(func() { _, e1 = r.Invoke(ctx, "start", compose.WithCheckPointID("cp")) }); cls != "" {
+		return "first-run-" + cls, nil, nil
+	}
+	if e1 == nil {
+		return "no-interrupt", nil, nil
+	}
+	if _, ok := compose.ExtractInterruptInfo(e1); !ok {
+		return "checkpoint-write-error", nil, nil
+	}
+	if len(store.m["cp"]) == 0 {
+		return "nothing-stored", nil, nil
+	}
+	if cls := c12Guard(func() { out, e2 = r.Invoke(ctx, "start", compose.WithCheckPointID("cp")) }); cls != "" {
+		return "resume-" + cls, nil, nil
+	}
+	if e2 != nil {
+		return "resume-error", nil, nil
+	}
+	for _, n := range names {
+		if out[n] != n {
+			return "wrong-output", gotState, gotInputs
+		}
+	}
+	return "ok", gotState, gotInputs
 }
 
 func c12BBOne[S any](ctx *vh.Ctx, c *c12BBCase) {
-	state, pending, ok := c12BBGen[S](c)
+	state, pending, loud, ok := c12BBGen[S](c)
 	if !ok {
 		ctx.Res.Dist("blackbox:skipped(not round-trippable white-box)")
 		return
 	}
 	ctx.Progress.Mark(c)
-	class, gs, gi := c12BBRun(state, pending)
+	var class string
+	var gs *S
+	var gis []*S
+	shape := "chain"
+	if c.Fan >= 2 {
+		shape = fmt.Sprintf("fan%d", c.Fan)
+		class, gs, gis = c12BBFan(state, pending, c.Fan, c.AllPred)
+	} else {
+		var gi *S
+		class, gs, gi = c12BBRun(state, pending)
+		gis = []*S{gi}
+	}
+	if c.Alias {
+		shape += "+alias"
+	}
+	if loud {
+		shape += "+unregistered"
+	}
 	ctx.Res.Dist("blackbox:" + class)
+	ctx.Res.Dist("blackbox-shape:" + shape + "=" + class)
 	ctx.Res.Count(fmt.Sprintf("blackbox/%d/%d", c.StateTy, c.Seed), true)
 	bad := func(sig, what string) {
 		ctx.Res.Disagree(vh.Disagreement{Signature: "C12:blackbox:" + sig, What: what, Case: c})
 	}
+	if loud && class == "checkpoint-write-error" {
+		return // refused loudly: the first run failed with an ordinary error, nothing was resumed
+	}
 	if class != "ok" {
-		bad(class, "interrupt + resume through the checkpoint store: "+class)
+		bad(class, "interrupt + resume through the checkpoint store ("+shape+"): "+class)
 		return
 	}
 	if gs == nil || gs == state {
@@ -208,12 +320,14 @@ func c12BBOne[S any](ctx *vh.Ctx, c *c12BBCase) {
 	if eq, why := c12DeepEq(reflect.ValueOf(state), reflect.ValueOf(gs)); !eq {
 		bad("state-differs", "state after resume differs from the state written: "+why)
 	}
-	if gi == nil {
-		bad("input-not-restored", "node 2 did not run with the pending input")
-		return
-	}
-	if eq, why := c12DeepEq(reflect.ValueOf(pending), reflect.ValueOf(gi)); !eq {
-		bad("input-differs", "pending input after resume differs from the one written: "+why)
+	for i, gi := range gis {
+		if gi == nil {
+			bad("input-not-restored", fmt.Sprintf("successor %d of %d did not run with the pending input (%s)", i, len(gis), shape))
+			return
+		}
+		if eq, why := c12DeepEq(reflect.ValueOf(pending), reflect.ValueOf(gi)); !eq {
+			bad("input-differs", "pending input after resume differs from the one written: "+why)
+		}
 	}
 }
 
@@ -231,6 +345,16 @@ func c12BlackBox(ctx *vh.Ctx, c *c12BBCase) {
 		c12BBOne[c12Mp](ctx, c)
 	case 5:
 		c12BBOne[c12P3](ctx, c)
+	case 6:
+		c12BBOne[c12Hist](ctx, c)
+	case 7:
+		c12BBOne[c12MKs](ctx, c)
+	case 8:
+		c12BBOne[c12MKp](ctx, c)
+	case 9:
+		c12BBOne[c12UStr](ctx, c)
+	case 10:
+		c12BBOne[c12Leaf](ctx, c)
 	}
 }
 
